@@ -114,7 +114,7 @@ def gen_scenario(rng, max_jobs=10, min_jobs=2, shapes=None, fail_p=0.5, flag_p=0
             "time_w": rng.choice([0.0, 0.1, 0.5]),
             "park_p": rng.choice([0.0, 0.0, 0.05, 0.2]),
         },
-        "user": {"try_submit": rng.choice([0, 0, 1, 2]), "show_status": rng.choice([0, 0, 1])},
+        "user": {"try_submit": rng.choice([0, 0, 1, 2]), "show_status": rng.choice([0, 0, 1]), "late_try": rng.choice([0, 0, 1])},
         "faults": {},
         "filelock": "",
         "hashseed": rng.choice([0, 1]),
